@@ -1052,6 +1052,12 @@ class PseudoNetCDFFile(PseudoNetCDFSelfReg, object):
             except Exception:
                 pass
             val = vardict[key]
+            # never store the input's own buffer (or a view of it) in outf
+            if isinstance(val, np.ndarray) and any(
+                isinstance(v, np.ndarray) and np.may_share_memory(val, v)
+                for v in self.variables.values()
+            ):
+                val = val.copy()
             # if the output variable has no dimensions,
             # there is likely a problem and the output
             # should be defined.
